@@ -196,4 +196,91 @@ def mapSet (m : Map) (addr : Nat) (r : Range) (allocOk : Bool) : Status × Map :
 def mapCopy (m : Map) (allocMap allocRanges : Bool) : Option Map :=
   if allocMap && allocRanges then some m else none
 
+/-! ## `sys_set_layout` (`src/addrxlat/sys.c`): a table of range assignments put into a map slot
+
+A translation system holds its maps in slots that start out as `NULL` (`none`).
+`sys_set_layout` allocates the map of the slot when it is missing and assigns the
+regions of a layout table in order; a region with the *direct* action first runs
+`act_direct`, which puts the one-region table `[0, last-first] -> RDIRECT` into the
+slot of the reverse direct map (`ADDRXLAT_SYS_MAP_KPHYS_DIRECT`) with a nested
+`sys_set_layout`.  Any failed allocation (of a map object or inside a range
+assignment) ends the whole call with that status.
+
+Allocation outcomes are a stream: every allocation request takes the head; an
+exhausted stream succeeds. -/
+
+/-- `ADDRXLAT_SYS_METH_RDIRECT` -/
+abbrev RDIRECT : Int := 5
+
+structure LRegion where
+  first : Nat
+  last : Nat
+  meth : Int
+  direct : Bool
+  deriving Repr, DecidableEq
+
+def takeAlloc : List Bool → Bool × List Bool
+  | [] => (true, [])
+  | b :: bs => (b, bs)
+
+/-- Does `addrxlat_map_set` call `realloc`?  Exactly when a failing allocator makes it report `nomem`. -/
+def setNeedsAlloc (m : Map) (addr : Nat) (r : Range) : Bool :=
+  (mapSet m addr r false).1 == .nomem
+
+/-- `addrxlat_map_set` on the allocation stream. -/
+def mapSetS (m : Map) (addr : Nat) (r : Range) (al : List Bool) : Status × Map × List Bool :=
+  if setNeedsAlloc m addr r then
+    ((mapSet m addr r (takeAlloc al).1).1, (mapSet m addr r (takeAlloc al).1).2, (takeAlloc al).2)
+  else
+    ((mapSet m addr r true).1, (mapSet m addr r true).2, al)
+
+/-- `if (!map) map = internal_map_new();` -/
+def slotNew (s : Option Map) (al : List Bool) : Option Map × List Bool :=
+  match s with
+  | some m => (some m, al)
+  | none => (if (takeAlloc al).1 then some [] else none, (takeAlloc al).2)
+
+/-- The loop of `sys_set_layout` over a table whose regions have no allocating action. -/
+def setAll : Map → List (Nat × Range) → List Bool → Status × Map × List Bool
+  | m, [], al => (.ok, m, al)
+  | m, (addr, r) :: rest, al =>
+    if (mapSetS m addr r al).1 = .ok then setAll (mapSetS m addr r al).2.1 rest (mapSetS m addr r al).2.2
+    else mapSetS m addr r al
+
+/-- `sys_set_layout` on a slot, table without allocating actions (the nested call of `act_direct`). -/
+def layoutPlain (s : Option Map) (regs : List (Nat × Range)) (al : List Bool) :
+    Status × Option Map × List Bool :=
+  match slotNew s al with
+  | (none, al') => (.nomem, none, al')
+  | (some m, al') => ((setAll m regs al').1, some (setAll m regs al').2.1, (setAll m regs al').2.2)
+
+def LRegion.range (g : LRegion) : Range := ⟨(g.last + W - g.first) % W, g.meth⟩
+/-- the table `act_direct` builds for the reverse direct map -/
+def LRegion.revTable (g : LRegion) : List (Nat × Range) := [(0, ⟨(g.last + W - g.first) % W, RDIRECT⟩)]
+
+/-- The region loop of `sys_set_layout`: `m` is the map of the slot, `rev` the slot of the reverse direct map. -/
+def layoutLoop : Map → Option Map → List LRegion → List Bool → Status × Map × Option Map × List Bool
+  | m, rev, [], al => (.ok, m, rev, al)
+  | m, rev, g :: rest, al =>
+    let pre : Status × Option Map × List Bool :=
+      if g.direct then layoutPlain rev g.revTable al else (.ok, rev, al)
+    -- `status = act_direct(ctl, region); if (status != ADDRXLAT_OK) return status;`
+    if pre.1 = .ok then
+      let res := mapSetS m g.first g.range pre.2.2
+      if res.1 = .ok then layoutLoop res.2.1 pre.2.1 rest res.2.2
+      else (res.1, res.2.1, pre.2.1, res.2.2)
+    else (pre.1, m, pre.2.1, pre.2.2)
+
+structure Sys where
+  map : Option Map
+  rev : Option Map
+  deriving Repr, DecidableEq
+
+/-- `sys_set_layout(ctl, idx, layout)` with `idx != ADDRXLAT_SYS_MAP_KPHYS_DIRECT`. -/
+def setLayout (s : Sys) (regs : List LRegion) (al : List Bool) : Status × Sys :=
+  match slotNew s.map al with
+  | (none, _) => (.nomem, s)
+  | (some m, al') =>
+    ((layoutLoop m s.rev regs al').1, ⟨some (layoutLoop m s.rev regs al').2.1, (layoutLoop m s.rev regs al').2.2.1⟩)
+
 end Kdf.Model.Map
